@@ -136,7 +136,7 @@ func c03IDs(out string) []string {
 	return ids
 }
 
-var c03Consumers = []string{"vif", "velseif", "neg", "vshow", "bind", "class", "notnot", "andt", "negandt", "orf", "tern", "bindneg"}
+var c03Consumers = []string{"vif", "velseif", "neg", "vshow", "bind", "class", "notnot", "andt", "negandt", "orf", "tern", "bindneg", "vshowstyle", "vshowchain", "vshowelse"}
 
 // consumers that put the value inside a compound expression
 var c03InExpr = map[string]bool{"notnot": true, "andt": true, "negandt": true, "orf": true, "tern": true, "bindneg": true}
@@ -163,6 +163,12 @@ func c03TruthTpl(consumer, x string) string {
 		return fmt.Sprintf(`<i id="m" :data-x="!%s">y</i>`, x)
 	case "vshow":
 		return fmt.Sprintf(`<i id="m" v-show="%s">y</i>`, x)
+	case "vshowstyle": // next to a static style, and on members of a chain
+		return fmt.Sprintf(`<i id="m" style="color:red" v-show="%s">y</i>`, x)
+	case "vshowchain":
+		return fmt.Sprintf(`<i id="m" v-if="t1" v-show="%s" style="color:red">y</i><b v-else>n</b>`, x)
+	case "vshowelse":
+		return fmt.Sprintf(`<b v-if="f0">n</b><i id="m" v-else style="color:red" v-show="%s">y</i>`, x)
 	case "bind":
 		return fmt.Sprintf(`<i id="m" :data-x="%s">y</i>`, x)
 	case "class":
@@ -190,6 +196,31 @@ func c03Observe(ctx *core.Ctx, consumer, reach string, tv truthVal) (truthy bool
 	case "item":
 		x = "it"
 		data["xs"] = []any{tv.V}
+	case "slotrow":
+		// the consumer is slot content that a component uses once per row: the same source node is
+		// evaluated first with a value of the opposite truthiness, then with the value (judged)
+		opposite := any(true)
+		if tv.Truth > 0 {
+			opposite = false
+		}
+		ctx.Eval(1)
+		files := Files{
+			"rows.vuego": `<ul><li v-for="r in rows"><slot :row="r"></slot></li></ul>`,
+			"page.vuego": `<template include="rows.vuego" :rows="rows"><template v-slot="p">` + c03TruthTpl(consumer, "p.row.x") + `</template></template>`,
+		}
+		data["rows"] = []map[string]any{{"x": opposite}, {"x": tv.V}}
+		out, err = renderPage(files, "page.vuego", data)
+		if err != nil {
+			return false, err, out
+		}
+		// judge the second row
+		lis := htmlcmp.Find(htmlcmp.Parse(out), func(n *html.Node) bool { return n.Data == "li" })
+		if len(lis) != 2 {
+			return false, fmt.Errorf("want 2 rows, got %d", len(lis)), out
+		}
+		var sb strings.Builder
+		_ = html.Render(&sb, lis[1])
+		return c03Judge(consumer, sb.String())
 	case "tagfield":
 		// the value is a struct field reached by its JSON tag (the expression library knows Go names only)
 		x = "it.val"
@@ -252,7 +283,7 @@ func c03Judge(consumer, out string) (truthy bool, err error, o string) {
 		}
 		_, ok := htmlcmp.Attr(m, "data-x")
 		return ok, nil, out
-	case "vshow":
+	case "vshow", "vshowstyle", "vshowchain", "vshowelse":
 		if m == nil {
 			return false, fmt.Errorf("element lost"), out
 		}
@@ -365,7 +396,7 @@ func init() {
 		ID:    "C03",
 		Level: "exploration",
 		Rule: "chain part: every sibling list up to the bound over {plain, v-if(T/F), v-else-if(T/F), v-else, v-for over an empty / one-element list, v-else / v-else-if members that are themselves loops} x separators {none, whitespace, comment, both} x placements {top, div, v-for x2, <template> members, nested in a taken branch, deep}; oracle: reference chain evaluator gives the ordered marker list. " +
-			"truth part: 46 Go values x 6 ways of reaching them (variable, nested key, loop item, struct field by JSON tag, dotted index, hyphenated key) x 12 consumers (v-if, v-else-if, !x, v-show, :attr, :class object, !!x, x && true, !x && true, x || false, x ? : in a binding, :attr with !x); oracles: documented table and agreement between consumers. non-trivial = chain of >=2 members with defined semantics, or any truth case",
+			"truth part: 46 Go values x 7 ways of reaching them (variable, nested key, loop item, struct field by JSON tag, dotted index, hyphenated key, slot content evaluated a second time after a value of the opposite truthiness) x 12 consumers (v-if, v-else-if, !x, v-show, :attr, :class object, !!x, x && true, !x && true, x || false, x ? : in a binding, :attr with !x, v-show next to a static style and on v-if / v-else members); oracles: documented table and agreement between consumers. non-trivial = chain of >=2 members with defined semantics, or any truth case",
 		Bounds:      map[string]string{"quick": "sibling lists of length <= 5", "thorough": "sibling lists of length <= 6"},
 		Assumptions: []string{"what an orphan v-else/v-else-if renders, and members after a v-else, are unconstrained (only plain siblings are checked there)", "NaN and the string \"false\" are checked for uniformity only"},
 		Decode:      core.DecodeAs[c03Case](),
@@ -374,8 +405,8 @@ func init() {
 				if tv.Name == "nil_ptr" {
 					emit(&c03Case{Part: "truth", Val: tv.Name, Reach: "ptrfield"})
 				}
-				for _, r := range []string{"var", "nested", "item", "tagfield", "dotindex", "hyphen"} {
-					if (r == "item" || r == "tagfield" || r == "dotindex" || r == "hyphen") && tv.Name == "missing" {
+				for _, r := range []string{"var", "nested", "item", "tagfield", "dotindex", "hyphen", "slotrow"} {
+					if (r == "item" || r == "tagfield" || r == "dotindex" || r == "hyphen" || r == "slotrow") && tv.Name == "missing" {
 						continue
 					}
 					emit(&c03Case{Part: "truth", Val: tv.Name, Reach: r})
